@@ -786,7 +786,8 @@ class Merger:
             target.parent[target.parentref] = merged_data
 
     def _insert_scalar(
-        self, insert_at: YAMLPath, lhs: Any, lhs_proc: Processor, rhs: Any
+        self, insert_at: YAMLPath, lhs: Any, lhs_proc: Processor, rhs: Any,
+        target: Optional[NodeCoords] = None
     ) -> bool:
         """Insert an RHS scalar into the LHS document."""
         merge_performed = False
@@ -798,9 +799,13 @@ class Merger:
         elif isinstance(lhs, CommentedSet):
             self.logger.debug(
                 "Merger::_insert_scalar:  Merging a scalar into a set.")
-            self._merge_sets(
+            merged_data = self._merge_sets(
                 lhs, CommentedSet([rhs]), insert_at,
                 NodeCoords(rhs, None, None))
+            if insert_at.is_root:
+                self.data = merged_data
+            elif merged_data is not lhs:
+                Merger._replace_merge_target(target, merged_data)
             merge_performed = True
         elif isinstance(lhs, CommentedMap):
             ex_message = (
@@ -908,7 +913,7 @@ class Merger:
             else:
                 # The RHS document root is a Scalar value
                 merge_performed = self._insert_scalar(
-                    insert_at, target_node, lhs_proc, rhs)
+                    insert_at, target_node, lhs_proc, rhs, node_coord)
 
         self.logger.debug(
             "Completed merge operation, resulting in document:",
